@@ -35,6 +35,12 @@ CHECKS = {
    note='Trusted: Coq kernel, translator templates for args_to_key and the four wrappers, the structural model of key identity (validated against Disk.put), abstract store standing for Cache.get/set (C03). memoize_stampede early-recompute thread is exercised only through its guard key.',
    tech='Coq proof (injectivity by list splitting, invariant over wrapper calls) + generated model + exhaustive differential enumeration',
    ref='7 (C16)'),
+ 'C19': dict(
+   cat='proof',
+   text='Theorems about a DjangoCache model built from the delegation table and get_backend_timeout regenerated from djangocache.py on every run: make_key injective in (version,key) for every prefix and key; timeout mapping DEFAULT/None/0/negative/positive; refinement of the Django contract dictionary by every call sequence of the 16 API methods under a non-decreasing clock (the clock hypothesis is proved necessary); culling of expired rows proved unobservable. Tie: fail-closed AST translator + per-call model-vs-implementation correspondence + three-way monitor (DjangoCache, Django LocMemCache, plain-Python contract) under one virtual clock hitting expiry instants exactly and one tick either side.',
+   note='Trusted: Coq kernel; translator templates for the DjangoCache methods and the get_backend_timeout chain; hand-written dictionary semantics of the FanoutCache methods (bk_* in model/Django.v) and the BaseCache-inherited methods, validated per call; stdlib DecimalZ for the decimal printer. Assumptions: single client (no Timeout; retry defaults belong to C14), clock never runs backwards, size_limit never reached, integer values and versions. Shard routing is C13.',
+   tech='Coq proof (injectivity by list splitting, refinement via a frame lemma over injective key making, induction over histories) + generated model + differential three-way monitor',
+   ref='7 (C19)'),
 }
 
 def main():
